@@ -28,7 +28,7 @@ def run(ctx):
     # character set's own bytes may be written - no substitution byte, no UTF-8
     for k, cs in enumerate(["ISO8859-1", "US-ASCII", "ISO8859-6"] if q else ["ISO8859-1", "US-ASCII", "ISO8859-6", "ISO8859-9", "KOI8-R", "EUC-JP"]):
         tf = ctx.work + "/legacy_%s.ndjson" % cs
-        s3, _ = ctx.run_vh(["screen", "--charset", cs, "--mix", "legacy", "--terms", "xterm-256color,vt100,linux", "--random", 3 if q else 20,
+        s3, _ = ctx.run_vh(["screen", "--charset", cs, "--mix", "legacy", "--terms", "xterm-256color,vt100,linux,vt220", "--random", 3 if q else 20,
                             "--ops", 30, "--seed", ctx.seed + 100 + k, "--out", tf], timeout=3000)
         r3 = ctx.validate_parallel("TScreenTrace", tf, parts=4 if q else 8, expect_events=s3.get("events"), timeout=3400)
         mine = [d for d in r3["devs"] if d["tag"].startswith("C09.")]
